@@ -267,8 +267,13 @@ func (nfs *Nfs) NFSPROC3_READ(args nfstypes.READ3args) nfstypes.READ3res {
 	defer nfs.recordOp(nfstypes.NFSPROC3_READ, time.Now())
 	var reply nfstypes.READ3res
 	util.DPrintf(1, "NFS Read %v %d %d\n", args.File, args.Offset, args.Count)
+	var count = uint64(args.Count)
+	if count > nfs.maxWrite() {
+		// RFC 1813: a READ larger than rtmax results in a short read
+		count = nfs.maxWrite()
+	}
 	op, data, eof, err := nfs.doRead(args.File, nfstypes.NF3REG,
-		uint64(args.Offset), uint64(args.Count))
+		uint64(args.Offset), count)
 	if err != nfstypes.NFS3_OK {
 		errRet(op, &reply.Status, err)
 		return reply
@@ -860,9 +865,10 @@ func (nfs *Nfs) NFSPROC3_FSINFO(args nfstypes.FSINFO3args) nfstypes.FSINFO3res {
 		errRet(op, &reply.Status, nfstypes.NFS3ERR_STALE)
 		return reply
 	}
-	reply.Resok.Rtmax = 16 * 4096
+	// a READ fills holes, so it is bounded by the journal like a WRITE
+	reply.Resok.Rtmax = nfstypes.Uint32(nfs.maxWrite())
 	reply.Resok.Rtmult = 4096
-	reply.Resok.Rtpref = reply.Resok.Rtmax
+	reply.Resok.Rtpref = 16 * 4096
 	reply.Resok.Wtmax = nfstypes.Uint32(nfs.maxWrite())
 	reply.Resok.Wtpref = 16 * 4096
 	reply.Resok.Wtmult = 4096
